@@ -18,7 +18,7 @@ func init() {
 			{Name: "pipeline-abstract", Pkg: ".", Files: []string{"root/fed.go", "root/c01.go"}, Entry: "VerifPipelineAbstract", Mode: "seq", Native: true,
 				Quick: map[string]int{"k": 2}, Thorough: map[string]int{"k": 3},
 				Reach: []string{"pipeline completed"}, Functions: pipelineFns,
-				Known: []string{"C01-abs-interface-field-plus-fragment", "C01-abs-typename-next-to-union-fragment", "C01-abs-fragment-on-interface"}},
+				Known: []string{"C01-abs-interface-field-plus-fragment", "C01-abs-fragment-on-interface", "C01-abs-fragment-on-one-implementer"}},
 			{Name: "pipeline-deep", Pkg: ".", Files: []string{"root/fed.go", "root/c01.go"}, Entry: "VerifPipelineDeep", Mode: "seq", Native: true,
 				Reach: []string{"pipeline completed"}, Functions: pipelineFns},
 		},
